@@ -64,6 +64,9 @@ func checkC07(c *Ctx) {
 	// ---- O8 a scope's mutable state is its own
 	c.checkFreshScopeState("O8 fresh-state")
 	c.checkDerivationThroughRegistry("O4 through-registry")
+	// a scope leaves the registry only through a checked deletion: the shard maps themselves are never
+	// replaced (a rebuilt map that leaves closed-but-unreported scopes behind drops what they recorded)
+	c.checkSetOnlyAtConstruction("O2 shard-map-fixed", "", "scopeBucket", "s")
 
 	// ---- O5 ------------------------------------------------------------------------------------------
 	c.checkLockPairing("O5 lock-pairing", []string{""}, eng, 12)
